@@ -5,14 +5,15 @@ chain server of mc/c05_chains.py (the request path encodes the remaining chain, 
 chain / loop is a URL and the intended (origin, path) of every follow-up is known by
 construction).  Enumerated exhaustively (see `families`):
 
-  F1 budget family   chains over {status} x {relative same-origin, other host, other scheme}
+  F1 budget family   chains over {status} x {same origin, other host}
                      for EVERY policy value x placement (request kw / pool ctor / manager ctor /
                      both / redirect=False kw) x client x {GET, POST+body}; chain length is
                      bounded by budget+1 (hops after the point where a correct client stops
                      are unobservable; a client that does not stop reaches them and is flagged),
                      plus loops of period 1..2 (never terminate: only the budget stops them)
-  F2 form family     chains over ALL Location forms x ALL statuses with a few policies, two
-                     start origins (http / https via stub TLS), all clients
+  F2 form family     chains over ALL 13 Location forms x ALL five redirect codes (plus 300 / 304
+                     carrying a Location: not redirects, must be handed back) with four policy
+                     placements, two start origins (http / https via stub TLS), all clients
 
 Oracle (an accountant over the request log, not a re-implementation of Retry):
   effective policy = request-level if given, else pool/manager-level, else the documented
@@ -446,9 +447,10 @@ def run(ctx):
     cov = {
         "distinct_nontrivial": c["nontrivial"],
         "rule": "product of (client x placement x policy x method x start origin) configurations with all redirect "
-                "chains of the family's hop alphabet (F1: length <= budget+1 plus loops of period <= 2; F2: all 13 "
-                "Location forms x 5 statuses, length <= %d); every tuple is a distinct case; non-trivial = at least one "
-                "follow-up request was sent or the policy/pool stopped the chain at a redirect" % (3 if ctx.thorough else 2),
+                "chains of the family's hop alphabet (F1: {%s} x {same origin, other host}, length <= budget+1, plus loops of "
+                "period <= 2; F2: all 13 Location forms x 5 redirect codes + 300/304, length <= %d); every tuple is a distinct case; non-trivial = at least one "
+                "follow-up request was sent or the policy/pool stopped the chain at a redirect" % (
+                    "301,302,303,307,308" if ctx.thorough else "302,303,307", 3 if ctx.thorough else 2),
         "exhaustive": True,
         "configurations": len(fams),
         "cases_enumerated": total,
